@@ -4,6 +4,7 @@ package main
 
 import (
 	"context"
+	"runtime"
 	"strings"
 
 	lua "github.com/yuin/gopher-lua"
@@ -52,6 +53,88 @@ func runMidScript(w *lib.Writer) {
 	if after > 0 || err2 == nil || !strings.Contains(err2.Error(), stdReason) {
 		w.GoFail(id, "a context attached by a host function while the script is running does not stop it")
 	}
+}
+
+// Coroutines that exist before SetContext (hunt2 obs-1): a coroutine created by an OLD coroutine after
+// the context was attached, and the old coroutine itself, must stop (fixed: a thread without a context
+// joins the context of the thread that resumes it).  The context is cancelled synchronously by the
+// 50th emit; the loops are bounded so that an unfixed tree fails instead of hanging.
+const oldCoroutineScript = `
+local worker = spawner(function() for i = 1, 4000 do emit("w", i) end return "worker done" end)
+emit(pcall(worker))
+emit(pcall(oldloop))
+emit("end")`
+
+func runOldCoroutines(w *lib.Writer) {
+	L := lua.NewState()
+	var emits, after int
+	var cancel context.CancelFunc
+	fired := false
+	L.SetGlobal("emit", L.NewFunction(func(*lua.LState) int {
+		emits++
+		if fired {
+			after++
+		}
+		if emits == 50 && cancel != nil {
+			fired = true
+			cancel()
+		}
+		return 0
+	}))
+	// before SetContext: a spawner coroutine (started, suspended) and a coroutine that will loop
+	if err := L.DoString(`
+spawner = coroutine.wrap(function(f) while true do f = coroutine.yield(coroutine.wrap(f)) end end)
+oldloop = coroutine.wrap(function() coroutine.yield() for i = 1, 4000 do emit("o", i) end end)
+oldloop()`); err != nil {
+		panic(err)
+	}
+	ctx, c := context.WithCancel(context.Background())
+	cancel = c
+	L.SetContext(ctx)
+	err := L.DoString(oldCoroutineScript)
+	obs := map[string]any{"emits": emits, "emits_after_cancel": after, "err": errText(err)}
+	ok := after == 0 && err != nil && strings.Contains(err.Error(), stdReason)
+	id := w.Add(lib.Case{Coq: "CNoFire " + lib.CoqBool(ok) + " true", Input: caseInput{Kind: "midscript_oldco"}, Observed: obs,
+		Class: "midscript/coroutines_older_than_the_context", Nontrivial: true})
+	_ = id
+}
+
+// A chain of coroutines each creating its successor and ending, under a live context that is never
+// done, must not keep the dead coroutines reachable (hunt2 obs-4: ~100 KB per dead coroutine with the
+// first version of fix 3317c4c).
+func runCtxChainMemory(w *lib.Writer) {
+	heap := func(withCtx bool) uint64 {
+		L := lua.NewState()
+		if withCtx {
+			L.SetContext(context.Background())
+		}
+		var mb uint64
+		// called by the LAST coroutine of the chain while it runs: every predecessor is dead
+		L.SetGlobal("probe", L.NewFunction(func(*lua.LState) int {
+			runtime.GC()
+			runtime.GC()
+			var m runtime.MemStats
+			runtime.ReadMemStats(&m)
+			mb = m.HeapAlloc >> 20
+			return 0
+		}))
+		if err := L.DoString(`
+left = 1200
+function task()
+  left = left - 1
+  if left > 0 then pending = coroutine.create(task) else probe() pending = "stop" end
+end
+pending = coroutine.create(task)
+while pending ~= "stop" do coroutine.resume(pending) end`); err != nil {
+			panic(err)
+		}
+		return mb
+	}
+	without, with := heap(false), heap(true)
+	ok := with <= without+25
+	obs := map[string]any{"heap_mb_without_context": without, "heap_mb_with_live_context": with}
+	w.Add(lib.Case{Coq: "CNoFire " + lib.CoqBool(ok) + " true", Input: caseInput{Kind: "midscript_chainmem"}, Observed: obs,
+		Class: "midscript/dead_coroutines_released", Nontrivial: true})
 }
 
 func errText(err error) string {
